@@ -8,7 +8,7 @@ import sys
 HERE = os.path.dirname(os.path.dirname(os.path.abspath(__file__)))
 if HERE not in sys.path:
     sys.path.insert(0, HERE)
-from common import REPO, WORK  # noqa: E402,F401  (also puts PY65_REPO on sys.path)
+from common import REPO, WORK, history_prologue  # noqa: E402,F401  (also puts PY65_REPO on sys.path)
 
 DEVS = ('6502', '65C02', '65Org16')
 WIDTHS = {'6502': (8, 16), '65C02': (8, 16), '65Org16': (16, 32)}
@@ -57,13 +57,18 @@ class Mon(object):
         self.r, self.w = os.pipe()
         self.fin = os.fdopen(self.r, 'rb', 0)
         self.out = io.StringIO()
-        argv = ['py65mon', '-m', dev]
+        start_dev, prologue = (dev, []) if (kwargs and 'memory' in kwargs) else history_prologue(dev)
+        argv = ['py65mon', '-m', start_dev]
         if i is not None:
             argv += ['-i', i]
         if o is not None:
             argv += ['-o', o]
         argv += list(extra)
         self.m = mod.Monitor(argv=argv, stdin=self.fin, stdout=self.out, **(kwargs or {}))
+        self.prologue = ['Monitor(argv=%r)' % (argv,)] + prologue
+        for line in prologue:          # session history that must not matter (common.history_prologue)
+            self.m.onecmd(line)
+        self.m.lastcmd = ''
         self.out.truncate(0)
         self.out.seek(0)
         self.wopen = True
